@@ -1,4 +1,5 @@
 import Mixin.Model.Locks
+import Mixin.Model.DepositKey
 import Mixin.Proofs.KV
 import Mixin.Proofs.Locks
 import Mixin.Facts.ExpectedC03
@@ -248,5 +249,195 @@ theorem takeover_prunes_mint (c : Cfg) (s s' : Store) (b a tx : Nat) (cur : Nat 
 -- quirk reproduced from the code: the same transaction with another amount prunes *itself*
 example : okAnd (exec cfg0 sample (.lockMint 7 1 5 true)) (fun s' =>
     s'.mint.get 7 == some (5, 1) && s'.tx.get 5 == none) = true := by decide
+
+/-! ## whole histories: any list of calls = any interleaving -/
+
+/-- the invariant the history theorems need; it holds of the empty database and of everything
+    reachable from it (`inv_reachable`) -/
+theorem inv_empty : Inv Store.empty := by
+  intro y hy; simp [Store.empty, Map.get] at hy
+
+theorem step_inv (c : Cfg) (s : Store) (op : Op) (hi : Inv s) : Inv (step c s op) := by
+  unfold step
+  split
+  · next s' h => exact exec_inv h hi
+  · exact hi
+
+theorem inv_run (c : Cfg) (s : Store) (ops : List Op) (hi : Inv s) : Inv (run c s ops) := by
+  unfold run
+  induction ops generalizing s with
+  | nil => exact hi
+  | cons op rest ih => exact ih _ (step_inv c s op hi)
+
+theorem inv_reachable (c : Cfg) (ops : List Op) : Inv (run c Store.empty ops) :=
+  inv_run c _ ops inv_empty
+
+theorem step_fin_mono (c : Cfg) (s : Store) (op : Op) (t : Nat) (h : s.fin.get t ≠ none) :
+    (step c s op).fin.get t ≠ none := by
+  unfold step
+  split
+  · next s' he =>
+    have := (exec_frame he).1 t (by cases hf : s.fin.get t with | none => exact absurd hf h | some _ => rfl)
+    intro e; rw [e] at this; cases this
+  · exact h
+
+/-- a FINALIZATION record is never removed -/
+theorem finalization_permanent (c : Cfg) (s : Store) (ops : List Op) (t : Nat) (h : s.fin.get t ≠ none) :
+    (run c s ops).fin.get t ≠ none := by
+  unfold run
+  induction ops generalizing s with
+  | nil => exact h
+  | cons op rest ih => exact ih _ (step_fin_mono c s op t h)
+
+/-- the holder `t` of a slot is guarded over a history when it is finalized at the start or
+    no call of the history carries the fork flag -/
+def Guarded (s : Store) (t : Nat) (ops : List Op) : Prop :=
+  s.fin.get t ≠ none ∨ ∀ op ∈ ops, op.isFork = false
+
+theorem Guarded.head {s : Store} {t : Nat} {op : Op} {ops : List Op} (g : Guarded s t (op :: ops)) :
+    Prot s op t := by
+  rcases g with g | g
+  · exact Or.inr g
+  · exact Or.inl (g op List.mem_cons_self)
+
+theorem Guarded.tail (c : Cfg) {s : Store} {t : Nat} {op : Op} {ops : List Op} (g : Guarded s t (op :: ops)) :
+    Guarded (step c s op) t ops := by
+  rcases g with g | g
+  · exact Or.inl (step_fin_mono c s op t g)
+  · exact Or.inr (fun o ho => g o (List.mem_cons_of_mem _ ho))
+
+/-- holder of an output over any guarded history -/
+theorem holder_stable_utxo (c : Cfg) (s : Store) (ops : List Op) (x : Nat × Nat) (t : Nat)
+    (hi : Inv s) (hx : s.utxo.get x = some t) (h0 : t ≠ 0) (g : Guarded s t ops) :
+    (run c s ops).utxo.get x = some t := by
+  unfold run
+  induction ops generalizing s with
+  | nil => exact hx
+  | cons op rest ih =>
+    refine ih (step c s op) (step_inv c s op hi) ?_ (g.tail c)
+    unfold step
+    split
+    · next s' he => exact exec_holder_utxo he hi hx h0 g.head
+    · exact hx
+
+theorem holder_stable_deposit (c : Cfg) (s : Store) (ops : List Op) (d t : Nat)
+    (hx : s.deposit.get d = some t) (g : Guarded s t ops) :
+    (run c s ops).deposit.get d = some t := by
+  unfold run
+  induction ops generalizing s with
+  | nil => exact hx
+  | cons op rest ih =>
+    refine ih (step c s op) ?_ (g.tail c)
+    unfold step
+    split
+    · next s' he => exact exec_holder_deposit he hx g.head
+    · exact hx
+
+theorem holder_stable_mint (c : Cfg) (s : Store) (ops : List Op) (b : Nat) (v : Nat × Nat)
+    (hx : s.mint.get b = some v) (g : Guarded s v.1 ops) :
+    (run c s ops).mint.get b = some v := by
+  unfold run
+  induction ops generalizing s with
+  | nil => exact hx
+  | cons op rest ih =>
+    refine ih (step c s op) ?_ (g.tail c)
+    unfold step
+    split
+    · next s' he => exact exec_holder_mint he hx g.head
+    · exact hx
+
+/-- `finalized_holder_stable`: once a finalized transaction `t` holds an output, a deposit or a
+    mint batch, it holds it after *any* further list of calls (fork takeovers, other
+    finalizations, anything).  For outputs the database must satisfy `Inv`, which every
+    database reachable from the empty one does. -/
+theorem finalized_holder_stable (c : Cfg) (s : Store) (ops : List Op) (t : Nat) (hfin : s.fin.get t ≠ none) :
+    (∀ x, Inv s → t ≠ 0 → s.utxo.get x = some t → (run c s ops).utxo.get x = some t) ∧
+    (∀ d, s.deposit.get d = some t → (run c s ops).deposit.get d = some t) ∧
+    (∀ b a, s.mint.get b = some (t, a) → (run c s ops).mint.get b = some (t, a)) :=
+  ⟨fun x hi h0 hx => holder_stable_utxo c s ops x t hi hx h0 (Or.inl hfin),
+   fun d hx => holder_stable_deposit c s ops d t hx (Or.inl hfin),
+   fun b a hx => holder_stable_mint c s ops b (t, a) hx (Or.inl hfin)⟩
+
+example : (run cfg0 sample [.lockUTXOs [(9, 1)] 8 true, .lockUTXOs [(9, 1), (9, 2)] 5 true,
+    .snapshot 1 [{ id := 9, ins := [.genesis], outs := [[1], [2], [3]] }],
+    .snapshot 2 [{ id := 5, ins := [.utxo 9 0], outs := [[4]] }]]).utxo.get (9, 1) = some 6 := by decide
+
+/-- `nonfork_holder_stable` (double-spend freedom of ordinary admission): over any history in
+    which no call carries the fork flag — any mix of admissions by any transactions, body
+    writes and finalizations — whoever holds a slot keeps it.  So of all conflicting non-fork
+    requests for a slot exactly the first one wins, under every interleaving. -/
+theorem nonfork_holder_stable (c : Cfg) (s : Store) (ops : List Op) (hnf : ∀ op ∈ ops, op.isFork = false) :
+    (∀ x t, Inv s → t ≠ 0 → s.utxo.get x = some t → (run c s ops).utxo.get x = some t) ∧
+    (∀ d t, s.deposit.get d = some t → (run c s ops).deposit.get d = some t) ∧
+    (∀ b v, s.mint.get b = some v → (run c s ops).mint.get b = some v) :=
+  ⟨fun x t hi h0 hx => holder_stable_utxo c s ops x t hi hx h0 (Or.inr hnf),
+   fun d t hx => holder_stable_deposit c s ops d t hx (Or.inr hnf),
+   fun b v hx => holder_stable_mint c s ops b v hx (Or.inr hnf)⟩
+
+-- two conflicting admissions of the free output (9,2): the first wins in either order
+example : (run cfg0 sample [.lockUTXOs [(9, 2)] 7 false, .lockUTXOs [(9, 2)] 8 false]).utxo.get (9, 2) = some 7 := by decide
+example : (run cfg0 sample [.lockUTXOs [(9, 2)] 8 false, .lockUTXOs [(9, 2)] 7 false]).utxo.get (9, 2) = some 8 := by decide
+/-- executable form of `Inv` -/
+def invB (s : Store) : Bool := s.utxo.all (fun p => (s.fin.get p.1.1).isSome)
+
+theorem inv_of_invB {s : Store} (h : invB s = true) : Inv s := by
+  intro y hy
+  cases hg : s.utxo.get y with
+  | none => rw [hg] at hy; cases hy
+  | some v =>
+    have := List.all_eq_true.mp h (y, v) (Map.mem_of_get hg)
+    exact this
+
+example : Inv sample := inv_of_invB (by decide)
+
+/-! ## the deposit slot key is injective in (chain, transaction, index) -/
+
+theorem colon_not_digit : ¬ ':' ∈ Nat.toDigits 10 n := by
+  intro h
+  have := Nat.isDigit_of_mem_toDigits (by decide) (by decide) h
+  simp [Char.isDigit] at this
+
+theorem toDigits_inj {m n : Nat} (h : Nat.toDigits 10 m = Nat.toDigits 10 n) : m = n := by
+  have hm := Nat.ofDigitChars_ten_toDigits (n := m)
+  have hn := Nat.ofDigitChars_ten_toDigits (n := n)
+  rw [h] at hm
+  exact hm.symm.trans hn
+
+/-- the part after the last `:` determines the split -/
+theorem split_last_colon {a a' d d' : List Char} (hd : ¬ ':' ∈ d) (hd' : ¬ ':' ∈ d')
+    (h : a ++ ':' :: d = a' ++ ':' :: d') : a = a' ∧ d = d' := by
+  induction a generalizing a' with
+  | nil =>
+    cases a' with
+    | nil => simp at h; exact ⟨rfl, h⟩
+    | cons c r =>
+      simp at h
+      exact absurd (by rw [h.2]; simp) hd
+  | cons c r ih =>
+    cases a' with
+    | nil =>
+      simp at h
+      exact absurd (by rw [← h.2]; simp) hd'
+    | cons c' r' =>
+      simp at h
+      obtain ⟨rfl, h2⟩ := h
+      obtain ⟨rfl, rfl⟩ := ih h2
+      exact ⟨rfl, rfl⟩
+
+/-- `depositKey_inj`: two deposits whose chain ids print with the same width (always 64 hex
+    characters) and that differ in chain, transaction id or output index hash different texts —
+    even when the transaction id itself contains `:` and digits. -/
+theorem depositKey_inj (chain chain' tx tx' : List Char) (i i' : Nat)
+    (hlen : chain.length = chain'.length)
+    (h : DepositKey.text chain tx i = DepositKey.text chain' tx' i') :
+    chain = chain' ∧ tx = tx' ∧ i = i' := by
+  unfold DepositKey.text at h
+  obtain ⟨hc, hr⟩ := List.append_inj h hlen
+  simp only [List.cons.injEq, true_and] at hr
+  obtain ⟨ht, hd⟩ := split_last_colon colon_not_digit colon_not_digit hr
+  exact ⟨hc, ht, toDigits_inj hd⟩
+
+example : DepositKey.text "ab".toList "0xabc:1".toList 1 ≠ DepositKey.text "ab".toList "0xabc".toList 11 := by decide
+example : DepositKey.text "ab".toList "0xabc:1".toList 1 = "ab:0xabc:1:1".toList := by decide
 
 end Mixin.C03
